@@ -47,6 +47,8 @@ def run(tier, seed, t0):
     sargs = ["--mode=solver", "--iters=%d" % iters, "--cpu_limit=%d" % T(tier, 60, 600), "--wall_limit=%d" % T(tier, 180, 1800)]
     R.run_inv(Inv("cellcycle", ns, "plain", args=sargs, timeout=to, tag="cellcycle-solver/plain"), seed, wd, m)
     R.run_inv(Inv("cellcycle", nsa, "asan", args=sargs, timeout=to, first=ns, tag="cellcycle-solver/asan"), seed, wd, m)
+    # the same law with the solver's parallel loops really parallel (several cells removed / dividing in the same iteration)
+    R.run_inv(Inv("cellcycle", ns // 4, "plain", args=sargs, threads=4, timeout=to, first=ns + nsa, tag="cellcycle-solver/plain/t4"), seed, wd, m)
     b = m.bins
     g = lambda k: b.get(k, 0)  # noqa
 
